@@ -274,7 +274,30 @@ func Ge(a, b *Term) *Term { return cmp(">=", a, b) }
 // Eidx: position of element i of a slice with offset off. An uninterpreted
 // symbol (defined as off+i by a prelude axiom) so that quantified facts about
 // "a[i]" have a pattern without interpreted arithmetic.
-func Eidx(off, i *Term) *Term { return App(SInt, "sidx", off, i) }
+func Eidx(off, i *Term) *Term {
+	// two literals: the position is a literal (distinct constant positions of a
+	// fresh array are then distinct without instantiating the prelude axiom)
+	if a, ok := smallLit(off.S); ok {
+		if b, ok := smallLit(i.S); ok {
+			return IntLit(a + b)
+		}
+	}
+	return App(SInt, "sidx", off, i)
+}
+
+func smallLit(s string) (int64, bool) {
+	if len(s) == 0 || len(s) > 9 {
+		return 0, false
+	}
+	var n int64
+	for _, c := range s {
+		if c < '0' || c > '9' {
+			return 0, false
+		}
+		n = n*10 + int64(c-'0')
+	}
+	return n, true
+}
 
 func Select(arr, idx *Term) *Term {
 	return mk(arr.Sort.ElemOfArr(), "select", arr, idx)
